@@ -25,6 +25,7 @@ import AdfProofs.FlushWriteSet
 import AdfProofs.NextBlockWriteSet
 import AdfProofs.RenameWriteSet
 import AdfProofs.UndelWriteSet
+import AdfProofs.TraceGrows
 namespace Adf.C18
 open Adf
 
@@ -168,6 +169,13 @@ theorem C18_create_dir_write_set (c : Cfg) (v nParent : Nat) (name : Bytes) (s :
     Post AnyFault c (createDir v nParent name) s (fun _ s' => ∃ W, writesOf s'.trace = W ++ writesOf s.trace ∧
       CreateWrites c s.disk v (blkOfBytes ((s.sector (vsect c v nParent)).take 512)) (s.mem.vol v).bitmapTable W) :=
   createDir_write_set c v nParent name s hnc
+
+/-- **the access log is append-only, for every program of the model**: whatever a call does and wherever it is interrupted,
+    the log after it is the log before it with new events in front — what the write-set theorems say about "the writes of
+    this call" can therefore never be undone by a later step of the same call -/
+theorem C18_access_log_only_grows (c : Cfg) {α : Type} (p : Prog α) (s : St) :
+    ∃ T, (run c p s).2.trace = T ++ s.trace :=
+  run_trace_grows c p s
 
 /-- **write set of `adfUndelDir`** (volumes without directory cache; every disk content, entry block, volume state and fault
     schedule), newest first: the entry's own block at most once, at the sector its self pointer names; then at most one
